@@ -17,6 +17,7 @@ What the model takes from the code, and where it is pinned here:
 -/
 import Verif.Extracted.ChainSkel
 import Verif.Extracted.DBSkel
+import Verif.Lemmas.LockTab
 
 namespace Verif.C01Src
 open Verif.Skel Verif.Extracted
@@ -217,5 +218,49 @@ theorem src_store_ancestor_timestamp_shape :
       skel_DBStore_AncestorTimestamp = true ∧
     (callNames skel_DBStore_AncestorTimestamp).count "db.getAncestorInfo" = 2 ∧
     skel_DBStore_AncestorTimestamp.getLast? = some (.ret []) := by decide
+
+/-! ### lock discipline of `chain.Manager`: the methods that read or change the CHAIN
+(the pool's methods are the subject of `Props/C05Src.lean`) -/
+
+open Verif.LockTab
+
+/-- the methods of the manager that read or change the chain -/
+def chainMethods : List String :=
+  ["AddBlocks", "AddValidatedV2Blocks", "PruneBlocks", "UpdatesSince", "Tip", "TipState", "Block", "BestIndex",
+   "State", "History", "Headers", "BlocksForHistory", "MinReorgIndex", "OnReorg",
+   "applyTip", "revertTip", "reorgPath", "reorgTo"]
+
+def chainLocks := managerLocks.filter (fun e => chainMethods.contains e.1)
+
+/-- the manager's mutex is an exclusive lock: no reader can run beside a writer, or beside another
+reader that fills the store's caches -/
+theorem src_manager_mutex_exclusive : managerMutexType = "sync.Mutex" := by decide
+
+/-- the only operations applied to `m.mu` are `Lock`, a deferred `Unlock` and a plain `Unlock` -/
+theorem src_chain_lock_ops_closed : opsClosed chainLocks = true := by decide
+
+/-- every exported chain method that touches the chain state, the store or the listener table
+(directly or through an unexported method) takes the lock FIRST and releases it by a deferred
+unlock; nothing is read before the lock is held -/
+theorem src_chain_exported_methods_lock_first : exportedLockFirst chainLocks = true := by decide
+
+/-- `reorgTo`, `applyTip`, `revertTip`, `reorgPath` never operate on the lock: they run inside their
+caller's critical section, so no window opens in the middle of a change -/
+theorem src_chain_internal_methods_never_lock : internalNeverLock chainLocks = true := by decide
+
+/-- the lock is opened in the middle of a chain method only by `AddBlocks` and
+`AddValidatedV2Blocks` (to call the listeners, see `C04Src`), once, and closed again at once;
+every other chain method holds the lock from its first statement to its return -/
+theorem src_chain_unlock_windows :
+    (chainLocks.filter (fun e => (lkOps e).contains "Unlock")).map (·.1) = ["AddBlocks", "AddValidatedV2Blocks"] ∧
+    chainLocks.all (fun e => windowsClosed (lkOps e)) = true ∧
+    chainLocks.all (fun e => (lkOps e).count "Unlock" ≤ 1) = true ∧
+    chainLocks.all (fun e => !(lkExported e && lkTouches e) || (lkOps e).contains "Unlock" || e.1 == "OnReorg" ||
+      lkOps e == ["Lock", "defer Unlock"]) = true := by decide
+
+/-- non-vacuity: every method named above is in the table extracted from the source -/
+theorem src_chain_lock_table_covers :
+    chainMethods.all (fun n => managerLocks.any (·.1 == n)) = true ∧ chainLocks.length = chainMethods.length := by
+  decide
 
 end Verif.C01Src
